@@ -9,7 +9,7 @@ use serde_json::{json, Value};
 
 pub const LEVEL: &str = "exploration";
 pub const EXHAUSTIVE: bool = true;
-pub const RULE: &str = "enumerated: ALL key histories of length 0..=L (quick L=5, thorough L=6) over a 14-symbol alphabet of the synthetic layout (ka, ta, ra, a, i, aa-sign, i-sign, hasanta, chandrabindu, '!', digit, ro-fola, zo-fola, ZWNJ) x 16 settings of {auto vowel, auto chandrabindu, traditional joining, old vowel-sign order} x old reph on/off, each followed by the reph key; plus generated histories of 4..16 keys over the whole layout. Oracle: option on => the text after the key is the text before with exactly one reph inserted and nothing else changed (all texts); for texts in the syllable grammar the position is the start of the final conjunct when the text ends in conjunct (vowel|sign)? chandrabindu?, else the end (empty text => reph alone). Option off => text before + reph. Non-trivial: the text is well-formed and the expected position is not the end; distinct by (options, text before the key).";
+pub const RULE: &str = "enumerated: ALL key histories of length 0..=L (quick L=5, thorough L=6) over a 14-symbol alphabet of the synthetic layout (ka, ta, ra, a, i, aa-sign, i-sign, hasanta, chandrabindu, '!', digit, ro-fola, zo-fola, ZWNJ) x 16 settings of {auto vowel, auto chandrabindu, traditional joining, old vowel-sign order} x old reph on/off, each followed by the reph key; plus generated histories of 4..16 keys over the whole layout. Oracle: option on => the text after the key is the text before with exactly one reph inserted and nothing else changed (all texts); for texts in the syllable grammar the position is the start of the final conjunct when the text ends in conjunct (vowel|sign)? chandrabindu?, else the end (empty text => reph alone). Option off => text before + reph. Non-trivial: the text is well-formed and the expected position is not the end; distinct by (options, text before the key). Plus texts from the syllable grammar deeper than L: 10 prefixes x conjuncts of 1..5 consonants x {none, ro-fola, zo-fola} x {none, aa-sign, i-sign} x chandrabindu x 18 settings.";
 pub const ASSUMPTIONS: &[&str] = &[
     "syllable grammar and placement rule as written in model::reph_position from the statement",
     "texts with stray signs / joiners / open-class characters are judged for conservation only",
@@ -132,7 +132,71 @@ fn run_random(bits: u32, ks: &[(u16, u8)], st: &mut Stats, sb: &Sandbox) -> Resu
     Ok(())
 }
 
+/// Texts built from the syllable grammar, deeper than the enumeration reaches: (something in front) + a conjunct of
+/// 1..=5 consonants + an optional fola + an optional vowel sign + an optional chandrabindu, then the reph key.
+fn deep_conjuncts(run: &Run) {
+    let sig = sigma();
+    let reph_key = *layout_inverse(Layout::Synthetic).get(model::REPH).expect("reph key");
+    let (ka, ta, ra, a, aa, i, has, chandra, bang, digit, rofola, zofola) = (0usize, 1usize, 2usize, 3usize, 5usize, 6usize, 7usize, 8usize, 9usize, 10usize, 11usize, 12usize);
+    let mut conjuncts: Vec<Vec<usize>> = vec![];
+    for n in 1..=5usize {
+        let alphabet: &[usize] = if n <= 3 { &[ka, ta, ra] } else { &[ka, ta] };
+        let total = alphabet.len().pow(n as u32);
+        for code in 0..total {
+            let mut x = code;
+            let mut c = vec![];
+            for j in 0..n {
+                if j > 0 {
+                    c.push(has);
+                }
+                c.push(alphabet[x % alphabet.len()]);
+                x /= alphabet.len();
+            }
+            conjuncts.push(c);
+        }
+    }
+    let prefixes: Vec<Vec<usize>> = vec![vec![], vec![ka], vec![ta], vec![a], vec![ka, aa], vec![bang], vec![digit], vec![ka, ta], vec![ra], vec![ka, chandra]];
+    let mut items: Vec<(u32, usize)> = vec![];
+    for bits in (16..32u32).chain([0, 5]) {
+        for p in 0..prefixes.len() {
+            items.push((bits, p));
+        }
+    }
+    run.exhaustive("deep-conjuncts-then-reph", &items, |_| Sandbox::new(), |&(bits, pi), st, sb| {
+        let opts = opts_of(bits);
+        let ctx = Ctx::new(opts, sb).map_err(|p| Failure::new(panic_kind(&p), p.to_string(), json!({})))?;
+        for c in &conjuncts {
+            for fola in [None, Some(rofola), Some(zofola)] {
+                for sign in [None, Some(aa), Some(i)] {
+                    for cb in [false, true] {
+                        let mut hist: Vec<usize> = prefixes[pi].clone();
+                        hist.extend(c.iter().copied());
+                        hist.extend(fola);
+                        hist.extend(sign);
+                        if cb {
+                            hist.push(chandra);
+                        }
+                        let ks: Vec<(u16, u8)> = hist.iter().map(|&i| sig[i].1).collect();
+                        let case = || json!({"opts": opts.letters(), "keys": hist.iter().map(|&i| sig[i].0.clone()).collect::<Vec<_>>()});
+                        st.evals(1);
+                        let (nt, p) = one(&ctx, &opts, &ks, reph_key, &case)?;
+                        if nt {
+                            st.nontrivial(hash_of(&(bits, &p)), || json!({"opts": opts.letters(), "text_before": p}));
+                            if c.len() >= 5 {
+                                st.label("reph-before-a-conjunct-of-three-or-more");
+                            }
+                        }
+                    }
+                }
+            }
+        }
+        Ok(())
+    });
+    run.require_label("reph-before-a-conjunct-of-three-or-more", 1000);
+}
+
 pub fn run(run: &Run) {
+    deep_conjuncts(run);
     exhaustive(run, run.tier.pick(5, 6));
     run.sharded(
         "random-longer-texts",
